@@ -341,6 +341,42 @@ func main() {
 		sort.Strings(j.info.FMFiles)
 	})
 
+	// one request that names SEVERAL files in file_to_generate (what `protoc a.proto b.proto c.proto` sends): the
+	// whole response - order of the files included - must be byte-identical for identical requests.  Verdict is
+	// recorded on the (variant, first file) entry.
+	{
+		byVariant := map[string][]*job{}
+		for _, j := range jobsList {
+			if !j.v.Plain && len(j.spec.Imports) == 0 && len(j.spec.FD.Dependency) == 0 && j.run1 != nil && j.run1.Err == "" {
+				byVariant[j.v.Name] = append(byVariant[j.v.Name], j)
+			}
+		}
+		for _, js := range byVariant {
+			if len(js) < 4 {
+				continue
+			}
+			pick := []*job{js[0], js[len(js)/3], js[2*len(js)/3], js[len(js)-1]}
+			var fds []*descriptorpb.FileDescriptorProto
+			var names []string
+			for _, j := range pick {
+				fds = append(fds, j.spec.FD)
+				names = append(names, j.spec.FD.GetName())
+			}
+			var first *miniprotoc.Result
+			for run := 0; run < 6; run++ {
+				r, err := miniprotoc.Run(*fmBin, pick[0].v.FMParam, fds, names, "", nil)
+				if err != nil || r.Err != "" {
+					break // (failures of single files are reported by their own entries)
+				}
+				if first == nil {
+					first = r
+				} else if string(r.Raw) != string(first.Raw) && pick[0].info.NonDeterm == "" {
+					pick[0].info.NonDeterm = fmt.Sprintf("a request naming %d files (%s) produced different responses in runs 0 and %d (order of files: %v vs %v)", len(names), strings.Join(names, ", "), run, first.Order, r.Order)
+				}
+			}
+		}
+	}
+
 	// build the message types alone first (fixture sanity), then with the fast-marshal files
 	goBuild := func(pkg string) string {
 		args := []string{"build"}
